@@ -157,6 +157,52 @@ Proof.
   unfold front, ins_pos, range_of in *. rewrite Hv, Hn, Hr in Hf. exact Hf.
 Qed.
 
+(* what create_sub_element does to the world: nothing, or a fresh leaf under h *)
+Definition leaf_shape (w : world) (h name : N) (w' : world) : Prop :=
+  w' = w \/
+  exists n cn k, w_nodes w h = Some n /\ n_content cn = [] /\ n_name cn = name /\
+    (k <= List.length (n_content n))%nat /\ n_name n <> name_short_name T /\
+    content_mode T (n_type n) <> Val MCharacters /\ isref T (n_type n) = false /\
+    (k = O -> identifiable_n T w n = false /\ (named T (n_type n) = true -> n_name cn <> name_short_name T)) /\
+    (n_name cn = name_short_name T -> short_type T check_fn (n_type cn)) /\
+    w' = leaf_world w h n cn k.
+
+Lemma raw_create_sub_shape h name v pos_opt w r w' :
+  TreeFacts w -> Inv04 w -> min_version LATEST h w = Val (OK v, w) ->
+  front T LATEST w h name pos_opt = false ->
+  match pos_opt with
+  | None => raw_create_sub_element T h name v w = Val (r, w')
+  | Some pos => raw_create_sub_element_at T h name pos v w = Val (r, w')
+  end -> leaf_shape w h name w'.
+Proof.
+  intros HF HI Hv Hfr H.
+  assert (Hcore : forall n s e pos, w_nodes w h = Some n -> calc_element_insert_range T n name v w = Val (OK (s, e), w) ->
+            (N.to_nat pos = O -> identifiable_n T w n = false /\ (named T (n_type n) = true -> name <> name_short_name T)) ->
+            create_sub_element_inner T h name pos v w = Val (r, w') -> leaf_shape w h name w').
+  { intros n s e pos Hn Hr Hfront Hc. apply create_inner_val in Hc; [|pose proof (tf_alloc _ HF _ _ Hn); lia].
+    destruct Hc as [(-> & _)|(n2 & et & ix & Hn2 & Hfind & Hlen & _ & ->)]; [left; reflexivity|]. right.
+    rewrite Hn in Hn2. injection Hn2 as <-.
+    exists n, (new_node (PElem h) name et), (N.to_nat pos).
+    split; [exact Hn|]. split; [reflexivity|]. split; [reflexivity|]. split; [exact Hlen|].
+    split; [eapply range_not_short; eauto; apply (i4_short _ _ _ HI)|].
+    split; [eapply calc_range_mode; eauto|]. split; [eapply range_not_ref; eauto|].
+    split; [exact Hfront|]. split; [|reflexivity].
+    cbn [new_node n_name n_type]. intros Hs. subst name. eapply (tk_short _ _ TK); eauto. }
+  destruct pos_opt as [pos|].
+  - unfold raw_create_sub_element_at in H. wnode H n Hn.
+    wbind_ro H se Ese; [|left; reflexivity]. destruct se as [s e]. destruct ((s <=? pos) && (pos <=? e)); [|winv H; left; reflexivity].
+    eapply Hcore; eauto. intros Hp. eapply front_false_at; eauto.
+  - unfold raw_create_sub_element in H. wnode H n Hn.
+    wbind_ro H se Ese; [|left; reflexivity]. destruct se as [s e].
+    eapply Hcore; eauto. intros Hp. eapply front_false_end; eauto.
+Qed.
+
+Lemma leaf_shape_inv04 w h name w' : TreeFacts w -> Inv04 w -> leaf_shape w h name w' -> Inv04 w'.
+Proof.
+  intros HF HI [->|(n & cn & k & Hn & Hleaf & _ & Hk & Hns & Hmd & _ & Hfront & Hst & ->)]; [exact HI|].
+  apply inv04_attach_leaf; auto.
+Qed.
+
 Lemma raw_create_sub_inv04 h name v pos_opt w r w' :
   TreeFacts w -> Inv04 w -> min_version LATEST h w = Val (OK v, w) ->
   front T LATEST w h name pos_opt = false ->
@@ -164,25 +210,26 @@ Lemma raw_create_sub_inv04 h name v pos_opt w r w' :
   | None => raw_create_sub_element T h name v w = Val (r, w')
   | Some pos => raw_create_sub_element_at T h name pos v w = Val (r, w')
   end -> Inv04 w'.
+Proof. intros HF HI Hv Hfr H. eapply leaf_shape_inv04; eauto. eapply raw_create_sub_shape; eauto. Qed.
+
+(* the three public operations have the same shape *)
+Lemma e_create_sub_shape o w r w' :
+  TreeFacts w -> Inv04 w -> Known04 T LATEST w o = false ->
+  match o with
+  | OpCreateSub h name => e_create_sub_element T LATEST h name w = Val (r, w') -> leaf_shape w h name w'
+  | OpCreateSubAt h name pos => e_create_sub_element_at T LATEST h name pos w = Val (r, w') -> leaf_shape w h name w'
+  | OpGetOrCreate h name => e_get_or_create_sub_element T LATEST h name w = Val (r, w') -> leaf_shape w h name w'
+  | _ => True
+  end.
 Proof.
-  intros HF HI Hv Hfr H.
-  assert (Hcore : forall n s e pos, w_nodes w h = Some n -> calc_element_insert_range T n name v w = Val (OK (s, e), w) ->
-            (N.to_nat pos = O -> identifiable_n T w n = false /\ (named T (n_type n) = true -> name <> name_short_name T)) ->
-            create_sub_element_inner T h name pos v w = Val (r, w') -> Inv04 w').
-  { intros n s e pos Hn Hr Hfront Hc. apply create_inner_val in Hc; [|pose proof (tf_alloc _ HF _ _ Hn); lia].
-    destruct Hc as [(-> & _)|(n2 & et & ix & Hn2 & Hfind & Hlen & _ & ->)]; [exact HI|].
-    rewrite Hn in Hn2. injection Hn2 as <-.
-    apply inv04_attach_leaf; auto.
-    - eapply range_not_short; eauto. apply (i4_short _ _ _ HI).
-    - eapply calc_range_mode; eauto.
-    - cbn [new_node n_name]. intros Hs. subst name. eapply (tk_short _ _ TK); eauto. }
-  destruct pos_opt as [pos|].
-  - unfold raw_create_sub_element_at in H. wstep H; try solve [winv E; exact HI]. winv E.
-    wstep H; [|exact HI]. destruct a as [s e]. destruct ((s <=? pos) && (pos <=? e)); [|winv H; exact HI].
-    eapply Hcore; eauto. intros Hp. eapply front_false_at; eauto.
-  - unfold raw_create_sub_element in H. wstep H; try solve [winv E; exact HI]. winv E.
-    wstep H; [|exact HI]. destruct a as [s e].
-    eapply Hcore; eauto. intros Hp. eapply front_false_end; eauto.
+  intros HF HI HK. destruct o; try exact I; intros H.
+  - unfold e_create_sub_element in H. wbind_ro H v Ev; [|left; reflexivity].
+    eapply (raw_create_sub_shape h name v None); eauto.
+  - unfold e_create_sub_element_at in H. wbind_ro H v Ev; [|left; reflexivity].
+    eapply (raw_create_sub_shape h name v (Some pos)); eauto.
+  - unfold e_get_or_create_sub_element in H. wbind_ro H v Ev; [|left; reflexivity].
+    wbind_ro H s Es; [|left; reflexivity]. destruct s as [c|]; [winv H; left; reflexivity|].
+    eapply (raw_create_sub_shape h name v None); eauto.
 Qed.
 
 Theorem C04_create_sub h name w r w' :
